@@ -387,7 +387,7 @@ def attribute_abort(pr, v, log):
 # properties (besides C04) contradicted by a panic / abort inside the given operation
 OP_PROPS = {
     "Extend": ["C07"], "FromIter": ["C07"], "FromVec": ["C07"], "FromOther": ["C07"], "Append": ["C07"], "Convert": ["C07"],
-    "IterMut": ["C09"], "Observe": ["C13"], "IntoIterCheck": ["C13"], "IntoVecCheck": ["C13"],
+    "IterMut": ["C09"], "CloneSwap": ["C14"], "CloneFrom": ["C14"], "EqCheck": ["C14"], "Observe": ["C13"], "IntoIterCheck": ["C13"], "IntoVecCheck": ["C13"],
     "SortedCheck": ["C06"], "SortedItemsCheck": ["C06"], "Serde": ["C15"], "Drain": ["C16"], "Clear": ["C16"],
     "Reserve": ["C17"], "ReserveExact": ["C17"], "TryReserve": ["C17"], "TryReserveExact": ["C17"], "Shrink": ["C17"],
 }
